@@ -22,6 +22,14 @@ NEG_RQ = f"{PR}:negotiate_as_requestor"
 NEG_UN = f"{PR}:negotiate_unrestricted"
 
 
+_LIT = {}
+
+
+def lit_id(s):
+    """identity of a literal UID string: distinct negative integers (symbolic identities range over all integers)"""
+    return _LIT.setdefault(s, -1 - len(_LIT))
+
+
 class UIDv:
     """abstract UID: an identity (z3 Int); str-like and UID-like for isinstance"""
     is_uid = True
@@ -38,6 +46,8 @@ class UIDv:
     def sym_eq(self, I, other):
         if isinstance(other, UIDv):
             return self.ident == other.ident
+        if isinstance(other, str):
+            return self.ident == lit_id(other)
         return False
 
     def sym_len(self, I):
